@@ -376,11 +376,11 @@ impl Context {
         while !children.is_empty() {
             let mut nexts = Vec::new();
             for t in &children {
-                if t.state().is_completed() {
-                    continue;
+                if !t.state().is_completed() {
+                    t.set_state(TaskState::Cancelled);
+                    self.emit_task(t)?;
                 }
-                t.set_state(TaskState::Cancelled);
-                self.emit_task(t)?;
+                // open tasks can hang below a finished one (the next act of a sequence)
                 nexts.extend_from_slice(&t.children());
             }
 
